@@ -12,18 +12,19 @@ import (
 // under test reads what the harness Feed()s and its writes are captured.
 // Deadlines are accepted and ignored.
 type Conn struct {
-	mu       sync.Mutex
-	cond     *sync.Cond
-	in       []byte
-	out      []byte
-	eof      bool
-	closed   bool
-	writeErr error
-	blocked  int // readers currently parked in Read on an empty buffer
-	consumed int64
-	local    net.Addr
-	remote   net.Addr
-	onWrite  func([]byte)
+	mu         sync.Mutex
+	cond       *sync.Cond
+	in         []byte
+	out        []byte
+	eof        bool
+	closed     bool
+	writeErr   error
+	writeFault func([]byte) error
+	blocked    int // readers currently parked in Read on an empty buffer
+	consumed   int64
+	local      net.Addr
+	remote     net.Addr
+	onWrite    func([]byte)
 }
 
 // NewConn creates an endpoint with the given addresses (may be nil).
@@ -74,6 +75,11 @@ func (c *Conn) Write(b []byte) (int, error) {
 	if c.writeErr != nil {
 		return 0, c.writeErr
 	}
+	if c.writeFault != nil {
+		if err := c.writeFault(b); err != nil {
+			return 0, err
+		}
+	}
 	c.out = append(c.out, b...)
 	if c.onWrite != nil {
 		c.onWrite(b)
@@ -114,6 +120,14 @@ func (c *Conn) FeedEOF() {
 }
 
 // SetWriteError makes all later Writes fail with err (nil to clear).
+// SetWriteFault installs a per-Write fault decision: fn sees the bytes of the
+// Write and returns the error the Write fails with (nil = write succeeds).
+func (c *Conn) SetWriteFault(fn func(b []byte) error) {
+	c.mu.Lock()
+	defer c.mu.Unlock()
+	c.writeFault = fn
+}
+
 func (c *Conn) SetWriteError(err error) {
 	c.mu.Lock()
 	c.writeErr = err
